@@ -79,7 +79,7 @@ def is_known(prop: str, key: str, known) -> dict | None:
 
 
 def write_replay(prop: str, name: str, payload: dict) -> str:
-    d = os.path.join(VERIF, "replays", prop)
+    d = os.path.join(os.environ.get("VERIF_OUT", VERIF), "replays", prop)
     os.makedirs(d, exist_ok=True)
     safe = re.sub(r"[^A-Za-z0-9_.\-]+", "_", name)[:150]
     path = os.path.join(d, safe + ".json")
@@ -188,8 +188,9 @@ def finish(rep: Report) -> int:
         "property_id": rep.prop, "tier": rep.tier, "seed": rep.seed, "level": rep.level, "coverage": cov,
         "assumptions": rep.assumptions, "wall_s": round(time.time() - rep.t0, 2), "violations": len(violations),
     }
-    os.makedirs(os.path.join(VERIF, "evidence"), exist_ok=True)
-    with open(os.path.join(VERIF, "evidence", rep.prop + ".json"), "w") as f:
+    evdir = os.path.join(os.environ.get("VERIF_OUT", VERIF), "evidence")
+    os.makedirs(evdir, exist_ok=True)
+    with open(os.path.join(evdir, rep.prop + ".json"), "w") as f:
         json.dump(ev, f, indent=1, default=str)
     print(f"{rep.prop}: {n_dis}/{n_ob} obligations discharged, {len(undecided)} undecided, "
           f"{sum(b.evaluations for b in rep.bounded)} bounded evaluations, {len(violations)} violations, "
